@@ -649,6 +649,8 @@ func genSkeleton() string {
 	b.WriteString("def flushCallers : List String := [" + strings.Join(genFlushCallers(), ", ") + "]\n")
 	b.WriteString("\n/-- every journal object the file-system layer reads or overwrites: (package.function, `ReadBuf` / `OverWrite`,\n    the size argument in bits as written in the source), in source order -/\n")
 	b.WriteString("def journalObjects : List (String × String × String) := [\n  " + strings.Join(genJournalObjects(), ",\n  ") + "\n]\n")
+	b.WriteString("\n/-- every access to a struct field that some sync/atomic call of the module synchronises, and every plain copy\n    of a struct holding one: (pkg.Func, 0 = through sync/atomic | 1 = in a variable private to the function | 2 = in shared memory, what) -/\n")
+	b.WriteString("def atomicUses : List (String × Nat × String) := [\n  " + strings.Join(genAtomicUses(), ",\n  ") + "\n]\n")
 	b.WriteString("\nend GoNfsd.Gen.Skeleton\n")
 	return b.String()
 }
